@@ -211,10 +211,16 @@ func (ci *ChunkInfo) getUnRepeatChunk(rootCid boson.Address) []*PyramidCidNum {
 	if err != nil {
 		return nil
 	}
+	// a file that is not registered holds no reference of its own to its
+	// chunks: every count then belongs to another file
+	own := uint(0)
+	if _, ok := ci.cp.hashData[rootCid.String()]; ok {
+		own = 1
+	}
 	cids := make([]*PyramidCidNum, 0, len(v.cids)+len(mate))
 	for overlay, c := range v.cids {
 		v := ci.cp.chunk[overlay]
-		if v > 1 {
+		if v > own {
 			continue
 		}
 		over := boson.MustParseHexAddress(overlay)
@@ -224,7 +230,7 @@ func (ci *ChunkInfo) getUnRepeatChunk(rootCid boson.Address) []*PyramidCidNum {
 
 	for overlay := range mate {
 		c := ci.cp.chunk[overlay]
-		if c > 1 {
+		if c > own {
 			continue
 		}
 		if _, ok := v.cids[overlay]; !ok {
@@ -306,6 +312,10 @@ func (cp *chunkPyramid) delChunk(cid boson.Address) {
 }
 
 func (ci *ChunkInfo) delRootCid(rootCID boson.Address, pyr pyramid, hashs []string) bool {
+	if _, ok := ci.cp.hashData[rootCID.String()]; !ok {
+		// not registered: its chunks were never counted
+		return true
+	}
 	for _, cid := range hashs {
 		ci.cp.delChunk(boson.MustParseHexAddress(cid))
 	}
